@@ -271,7 +271,7 @@ func c11Check(c C11Case, rec *Recorder) *Disc {
 		for k, v := range preset {
 			if k == hVary {
 				got := resp.Hdr[hVary]
-				if len(got) < len(v) || !eqStrs(got[:len(v)], v) {
+				if !varyKept(v, got) {
 					return discf("preflight: pre-set Vary %q not preserved as prefix of %q: %s", v, got, where)
 				}
 				continue
@@ -311,7 +311,7 @@ func c11Check(c C11Case, rec *Recorder) *Disc {
 			got := resp.Entry[k]
 			switch k {
 			case hVary:
-				if len(got) < len(v) || !eqStrs(got[:len(v)], v) {
+				if !varyKept(v, got) {
 					return discf("pre-set Vary %q is not a prefix of Vary at handler entry %q: %s", v, got, where)
 				}
 			case hACAO, hACAC, hACEH:
